@@ -190,7 +190,15 @@ def counter_name(fv, f) -> Optional[str]:
     names = set()
     for n in fv.cfg.nodes:
         if n.kind == "stmt":
-            names |= _template_names(n.ast) - {"label"}
+            for nm in _template_names(n.ast) - {"label"}:
+                # a temporary that carries the label text itself (label__h1 = label after a helper was expanded) is not the counter
+                carries_label = False
+                for d in fv.cfg.reaching()[n.id].get(nm, ()):
+                    dn = fv.cfg.nodes[d]
+                    if dn.kind == "stmt" and isinstance(dn.ast, ast.Assign) and any(isinstance(x, ast.Name) and x.id == "label" for x in ast.walk(dn.ast.value)):
+                        carries_label = True
+                if not carries_label:
+                    names.add(nm)
     if not names:
         for cs in fv.calls():
             hv = fv._helper_view(cs.call)
